@@ -52,6 +52,7 @@ fn main() {
         "C03" | "C02" | "C04" => multi::run(seed, tier, &mut out, false),
         "C03b" => multi::run(seed, tier, &mut out, true),
         "C19M" => multi::run_small(seed, tier, &mut out),
+        "GIVEN" => multi::run_given(&mut out),
         "C03H" => multi::run_detour(seed, tier, &mut out),
         "ROWS" => multi::run_rows(seed, tier, &mut out),
         "C05M" => multi::run_limited(seed, tier, &mut out),
